@@ -6,11 +6,11 @@ from props import common
 
 ID = "C02"
 LEVEL = "proof"
-LEVEL_TEXT = 'Lean 4 theorems: weight gate (a fill with weight <= 0 or NaN is the identity), order independence of fillAll for every permutation, state-independence of faults, routing conventions stated outright; the closed-form value of every node is compared with an independent exact-rational reference evaluator and with the Lean model on generated streams over the critical values of each tree.'
-LEVEL_NOTE = 'The closed-form specification (`denote`) is not yet a Lean theorem: it is checked differentially (reference evaluator vs implementation vs model). Exact arithmetic; rounding is the declared gap.'
+LEVEL_TEXT = 'Lean 4 theorems: fillAll_eq_denote — for every empty tree and every good stream the record-by-record fill equals the closed-form specification denote (sums of weights, weighted sums, mean/variance with the special-value table, extrema ignoring NaN, value-to-weight map, routed sub-multisets per child; written without reference to fill); the specification depends on the multiset only; weight gate (a fill with weight <= 0 or NaN is the identity), order independence of fillAll for every permutation, state-independence of faults, routing conventions stated outright; the closed-form value of every node is compared with an independent exact-rational reference evaluator and with the Lean model on generated streams over the critical values of each tree.'
+LEVEL_NOTE = 'Exact arithmetic; IEEE rounding of sums/means/variances is the declared gap. The specification denote is itself compared with the implementation on every case (and with an independent exact-rational reference evaluator written from the Histogrammar specification).'
 TECHNIQUE = 'Lean 4 proof (gate, permutation invariance, routing) + three-way differential check against an independent reference evaluator'
 LEAN_MODULE = "Hg.Props.C02"
-THEOREMS = ["Hg.C02.fill_gate", "Hg.C02.fillAll_perm", "Hg.C02.fill_ok_indep", "Hg.C02.routeBin_spec", "Hg.C02.centralPick_midpoint"]
+THEOREMS = ["Hg.C02.fillAll_eq_denote", "Hg.C02.denote_perm", "Hg.C02.denote_gated", "Hg.C02.fill_gate", "Hg.C02.fillAll_perm", "Hg.C02.fill_ok_indep", "Hg.C02.routeBin_spec", "Hg.C02.centralPick_midpoint"]
 CASES = {"quick": 320, "thorough": 12000}
 RULE = ("random tree spec (19 primitives, depth<=3) and a stream of <=16 weighted records over the tree's critical values "
         "(every edge/threshold/centre/midpoint +- 1/8, NaN, +-inf, None/strings) with gate weights {0,-1,-0.5,nan} mixed in; "
